@@ -176,7 +176,7 @@ theorem nonvacuous_run : run [] exOps = .ok exState := by decide
 /-- list items written out of order: the second write goes through the padding slot -/
 theorem nonvacuous_padding :
     run [] [.put "base" "l[1].x" (i "1")] = .ok [("base", [("l", .list [Node.null, .cont [("x", i "1")]])])] := by
-  decide
+  decide +kernel
 
 theorem nonvacuous_names : layerNames exState = ["base", "top", "env"] := by decide
 
